@@ -398,7 +398,7 @@ def c20_driver(ctx):
         src = os.path.join(sdir, "src")
         os.makedirs(src)
         files = {}
-        nfiles = 1 + rng.below(7)
+        nfiles = 7 if si == 0 else 1 + rng.below(7)     # the first set uses every kind of name (spaces, parentheses, no extension)
         for fi in range(nfiles):
             kind = rng.below(6)
             size = [0, 1, 5, 511, 4096, 20000][kind] if rng.below(3) else rng.below(9000)
@@ -956,8 +956,14 @@ def c02_driver(ctx):
             name = ["flat%d.txt" % k, "Dir\\Sub\\file%d.dat" % k, "a\\b%d.bin" % k, "x%d" % k, "zone\\Azeroth_%d.wdt" % k][k % 5 if i % 2 else k % 4]
             ln = rng.pick([0, 1, 2, 3, 5, ssz - 1, ssz, ssz + 1, 2 * ssz, 3 * ssz + 7, rng.below(3 * ssz) + 1])
             cls = rng.below(3)
+            if k == 0 and i % 2 == 1:
+                # every second archive starts with a compressible file of exactly 2 or 3 sectors (sector counts derived from
+                # file_size / sector_size differ from ceil() only there)
+                ln, cls = (2 + i % 4 // 2) * ssz, 1 + i % 2
             data = bytes((rng.next() & 0xFF) for _ in range(ln)) if cls == 0 else bytes([65 + (j // 9 + k) % 5 for j in range(ln)]) if cls == 1 else b"\0" * ln
             method = rng.pick([0, 0x02, 0x10])
+            if k == 0 and i % 2 == 1:
+                method = 0x02
             enc = rng.below(3)
             secs = [data] if ln <= ssz else [data[j:j + ssz] for j in range(0, ln, ssz)]
             units = [_ref_encode_unit(s_, method) for s_ in secs]
